@@ -157,6 +157,7 @@ package lua
 //@ ensures  "array-key": 1 <= key && key < old(MaxArrayIndex) ==> len(tb.array) == old(max(len(tb.array), key)) && tb.array[key-1] == value && (forall k int :: 0 <= k && k < old(len(tb.array)) && k != key-1 ==> tb.array[k] == old(tb.array[k])) && (forall k int :: old(len(tb.array)) <= k && k < key-1 ==> tb.array[k] == LNil)
 //@ ensures  "hash-key": !(1 <= key && key < old(MaxArrayIndex)) ==> len(tb.array) == old(len(tb.array)) && (forall k int :: 0 <= k && k < len(tb.array) ==> tb.array[k] == old(tb.array[k]))
 //@ ensures  arrid(tb.array) == old(arrid(tb.array)) || fresh(tb.array)
+//@ ensures  arrid(tb.keys) == old(arrid(tb.keys)) || fresh(tb.keys)
 //@ modifies tb.array, tb.array[*], tb.dict, tb.strdict, tb.keys, tb.k2i, tb.keys[*], tb.dict{*}, tb.strdict{*}, tb.k2i{*}
 //@ loop 1 invariant 0 <= i && i <= index - alen && Inv_arr(tb) && len(tb.array) == alen + i && alen == old(len(tb.array)) && index == key - 1 && index > alen && arrid(tb.array) != 0 && (arrid(tb.array) == old(arrid(tb.array)) || fresh(tb.array))
 //@ loop 1 invariant forall k int :: 0 <= k && k < alen ==> tb.array[k] == old(tb.array[k])
@@ -169,6 +170,7 @@ package lua
 //@ ensures  Inv_arr(tb)
 //@ ensures  !isNum(key) || (exists n int :: n <= 0 && key == mkNum(i2f(n))) ==> len(tb.array) == old(len(tb.array)) && (forall k int :: 0 <= k && k < len(tb.array) ==> tb.array[k] == old(tb.array[k]))
 //@ ensures  arrid(tb.array) == old(arrid(tb.array)) || fresh(tb.array)
+//@ ensures  arrid(tb.keys) == old(arrid(tb.keys)) || fresh(tb.keys)
 //@ modifies tb.array, tb.array[*], tb.dict, tb.strdict, tb.keys, tb.k2i, tb.keys[*], tb.dict{*}, tb.strdict{*}, tb.k2i{*}
 
 //@ func (*LTable).Insert [C09 C18]
@@ -179,6 +181,7 @@ package lua
 //@ ensures  "beyond": i > old(len(tb.array)) && i < old(MaxArrayIndex) ==> len(tb.array) == i && tb.array[i-1] == value && (forall k int :: 0 <= k && k < old(len(tb.array)) ==> tb.array[k] == old(tb.array[k])) && (forall k int :: old(len(tb.array)) <= k && k < i-1 ==> tb.array[k] == LNil)
 //@ ensures  "nonpositive": i <= 0 ==> len(tb.array) == old(len(tb.array)) && (forall k int :: 0 <= k && k < len(tb.array) ==> tb.array[k] == old(tb.array[k]))
 //@ ensures  arrid(tb.array) == old(arrid(tb.array)) || fresh(tb.array)
+//@ ensures  arrid(tb.keys) == old(arrid(tb.keys)) || fresh(tb.keys)
 //@ modifies tb.array, tb.array[*], tb.dict, tb.strdict, tb.keys, tb.k2i, tb.keys[*], tb.dict{*}, tb.strdict{*}, tb.k2i{*}
 
 // ---------------------------------------------------------------------------
@@ -212,3 +215,57 @@ package lua
 //@ ensures  result == 1 && top(L) == old(top(L)) + 1 && argsKept(L) && Inv_arr(argTab(L, 1))
 //@ ensures  "removed": forall n int :: old(isListLen(argTab(L, 1), n) && 1 <= removePos(L, n) && removePos(L, n) <= n) ==> pushed(L, 0) == old(argTab(L, 1).array[removePos(L, n) - 1]) && len(old(argTab(L, 1)).array) == old(len(argTab(L, 1).array)) - 1 && (forall k int :: 0 <= k && k < old(removePos(L, n)) - 1 ==> old(argTab(L, 1)).array[k] == old(argTab(L, 1).array[k])) && (forall k int :: old(removePos(L, n)) - 1 <= k && k < len(old(argTab(L, 1)).array) ==> old(argTab(L, 1)).array[k] == old(argTab(L, 1).array[k+1]))
 //@ modifies L.reg.array, L.reg.top, L.reg.array[*], type LTable.array, elems(LValue)
+
+// table.insert(t, [pos,] value): "Inserts element value at position pos in table, shifting up other elements to
+// open space, if necessary. The default value for pos is n+1, where n is the length of the table."
+//@ func tableInsert [C18]
+//@ requires Inv_gfn(L) && isTab(arg(L, 1)) && Inv_arr(argTab(L, 1)) && nargs(L) >= 2 && arg(L, 2) != nil && arg(L, 3) != nil
+//@ requires nargs(L) >= 3 ==> isNum(arg(L, 2))
+//@ requires len(argTab(L, 1).array) + 1 < MaxArrayIndex
+//@ requires arrid(argTab(L, 1).array) != arrid(L.reg.array) && arrid(argTab(L, 1).keys) != arrid(L.reg.array)
+//@ noraise
+//@ ensures  result == 0 && top(L) == old(top(L)) && Inv_arr(argTab(L, 1))
+//@ ensures  "append": old(nargs(L) == 2 && arg(L, 2) != LNil) ==> forall n int :: old(isListLen(argTab(L, 1), n)) ==> isListLen(argTab(L, 1), n+1) && argTab(L, 1).array[n] == old(arg(L, 2)) && (forall k int :: 0 <= k && k < n ==> argTab(L, 1).array[k] == old(argTab(L, 1).array[k]))
+//@ ensures  "append-nil": old(nargs(L) == 2 && arg(L, 2) == LNil) ==> len(argTab(L, 1).array) == old(len(argTab(L, 1).array)) && (forall k int :: 0 <= k && k < len(argTab(L, 1).array) ==> argTab(L, 1).array[k] == old(argTab(L, 1).array[k]))
+//@ ensures  "insert": old(nargs(L) >= 3) ==> forall n int :: old(isListLen(argTab(L, 1), n) && 1 <= f2i(num(arg(L, 2))) && f2i(num(arg(L, 2))) <= n + 1) ==> argTab(L, 1).array[old(f2i(num(arg(L, 2)))) - 1] == old(arg(L, 3)) && (forall k int :: 0 <= k && k < old(f2i(num(arg(L, 2)))) - 1 ==> argTab(L, 1).array[k] == old(argTab(L, 1).array[k])) && (forall k int :: old(f2i(num(arg(L, 2)))) <= k && k <= n ==> argTab(L, 1).array[k] == old(argTab(L, 1).array[k-1])) && (old(arg(L, 3)) != LNil ==> isListLen(argTab(L, 1), n+1))
+//@ modifies type LTable.array, type LTable.dict, type LTable.strdict, type LTable.keys, type LTable.k2i, elems(LValue), type LTable.dict{*}, type LTable.strdict{*}, type LTable.k2i{*}
+
+// table.sort(t [, comp]): the kernel is (a) the slice handed to sort.Sort is exactly the list t[1..n],
+// (b) Swap exchanges two elements and nothing else (so any run of sort.Sort leaves a permutation).
+//@ extern sort.Sort
+//@ assume sort.Sort(data) calls only data.Len, data.Less and data.Swap, terminates for every Less, and leaves the data ordered when Less is a strict weak order (Go standard library)
+//@ modifies everything
+
+//@ func tableSort [C18]
+//@ requires Inv_gfn(L) && isTab(arg(L, 1)) && Inv_arr(argTab(L, 1))
+//@ assert@"sort.Sort(sorter)" forall n int :: old(isListLen(argTab(L, 1), n)) ==> len(sorter.Values) == n && arrid(sorter.Values) == old(arrid(argTab(L, 1).array)) && offset(sorter.Values) == 0
+//@ ensures  result == 0
+//@ modifies everything
+
+//@ func (lValueArraySorter).Swap [C18]
+//@ requires 0 <= i && i < len(lv.Values) && 0 <= j && j < len(lv.Values)
+//@ noraise
+//@ ensures  lv.Values[i] == old(lv.Values[j]) && lv.Values[j] == old(lv.Values[i])
+//@ ensures  forall k int :: 0 <= k && k < len(lv.Values) && k != i && k != j ==> lv.Values[k] == old(lv.Values[k])
+//@ modifies lv.Values[*]
+
+//@ func (lValueArraySorter).Len [C18]
+//@ noraise
+//@ ensures  result == len(lv.Values)
+//@ modifies nothing
+
+// unpack(list [, i [, j]]): "returns list[i], list[i+1], ..., list[j]"; default i = 1, j = #list
+//@ define unpackFrom(L *LState) int = ite(isNil(arg(L, 2)), 1, f2i(num(arg(L, 2))))
+//@ define unpackTo(L *LState, n int) int = ite(isNil(arg(L, 3)), n, f2i(num(arg(L, 3))))
+
+//@ func baseUnpack [C02 C18]
+//@ requires Inv_gfn(L) && isTab(arg(L, 1)) && Inv_arr(argTab(L, 1)) && (isNil(arg(L, 2)) || isNum(arg(L, 2))) && (isNil(arg(L, 3)) || isNum(arg(L, 3)))
+//@ requires arrid(argTab(L, 1).array) != arrid(L.reg.array)
+//@ ensures  argsKept(L) && top(L) == old(top(L)) + result
+//@ ensures  "count": forall n int :: old(isListLen(argTab(L, 1), n)) ==> result == old(max(unpackTo(L, n) - unpackFrom(L) + 1, 0))
+//@ ensures  "values": forall k int :: old(top(L)) <= k && k < top(L) ==> L.reg.array[k] == old(ite(1 <= unpackFrom(L) + k - top(L) && unpackFrom(L) + k - top(L) <= len(argTab(L, 1).array), argTab(L, 1).array[unpackFrom(L) + k - top(L) - 1], LNil))
+//@ modifies L.reg.array, L.reg.top, L.reg.array[*]
+//@ loop 1 invariant Inv_gfn(L) && L.reg == old(L.reg) && base(L) == old(base(L)) && start <= i && (i <= end + 1 || i == start) && top(L) == old(top(L)) + i - start && arrSameOrFresh(L.reg) && start == old(unpackFrom(L)) && tb == old(argTab(L, 1))
+//@ loop 1 invariant forall k int :: 0 <= k && k < old(top(L)) ==> L.reg.array[k] == old(L.reg.array[k])
+//@ loop 1 invariant arrid(tb.array) == old(arrid(argTab(L, 1).array)) && len(tb.array) == old(len(argTab(L, 1).array)) && offset(tb.array) == 0 && forall k int :: 0 <= k && k < len(tb.array) ==> tb.array[k] == old(argTab(L, 1).array[k])
+//@ loop 1 invariant forall k int :: old(top(L)) <= k && k < top(L) ==> L.reg.array[k] == old(ite(1 <= unpackFrom(L) + k - top(L) && unpackFrom(L) + k - top(L) <= len(argTab(L, 1).array), argTab(L, 1).array[unpackFrom(L) + k - top(L) - 1], LNil))
